@@ -6,11 +6,11 @@ import json
 from .. import core, realcode
 
 OPS = {'==': '=', '!=': '<>', '>': '>', '>=': '>=', '<': '<', '<=': '<='}
-NUMS = [5, 2.5, -4, 0, 3, 10]
+NUMS = [5, 2.5, -4, 0, 3, 10, 1]
 TEXTS = ['apple', 'APPLE', 'a*', '*an*', '?pple', 'a~*c', 'ab', 'a?', 'b', 'x y', 'a.c', '[a]', 'banana',
          'nan', 'inf', 'Infinity', '1_0', 'e5', '0x1A',        # words float() would take for numbers: they are texts
-         'a~~b', '50~~', '~~', 'a~?', '~*~~', 'abc~', '~', 'a*~']                    # ~ escapes itself and the wildcards, with or without a wildcard in the text
-CELLS = [5, 3, 10, 2.5, -4, 0, 'apple', 'Apple', 'banana', 'a*c', 'abc', 'ab', 'a.c', 'axc', '[a]', '', True, False, None, 'NaN', 'nan', 'INF', 'infinity', '1_0', 26, 'a~b', 'a~~b', '50~', '50~~', '~', '~~', 'a?', 'a~?', '*~', '*~~', 'abc~', 'abc', 'ab~']
+         'a~~b', '50~~', '~~', 'a~?', '~*~~', 'abc~', '~', 'a*~', ' a', 'a ', ' ']   # blanks inside a criterion text are part of the text                    # ~ escapes itself and the wildcards, with or without a wildcard in the text
+CELLS = [5, 3, 10, 2.5, -4, 0, 'apple', 'Apple', 'banana', 'a*c', 'abc', 'ab', 'a.c', 'axc', '[a]', '', True, False, None, 'NaN', 'nan', 'INF', 'infinity', '1_0', 26, 'a~b', 'a~~b', '50~', '50~~', '~', '~~', 'a?', 'a~?', '*~', '*~~', 'abc~', 'abc', 'ab~', ' a', 'a ', 'a', ' ', '']
 
 
 class _Blank:
@@ -119,9 +119,9 @@ def end_to_end(chk, tier):
     n = 12 if tier == 'quick' else 200
     for b in range(n):
         h = rng.randint(3, 8)
-        keys1 = [rng.choice([5, 3, 10, 2.5, -4, 0, 7, 3, 5, None]) for _ in range(h)]
+        keys1 = [rng.choice([5, 3, 10, 2.5, -4, 0, 7, 3, 5, None, 1]) for _ in range(h)]
         keys2 = [rng.choice(['apple', 'Apple', 'banana', 'abc', 'ab', 'a*c', 'pear', 'nan', 'Inf']) for _ in range(h)]
-        keys3 = [rng.choice([1, 2, 'x', 'y', 2.5, '', None]) for _ in range(h)]
+        keys3 = [rng.choice([1, 2, 'x', 'y', 2.5, '', None, True, False, 0, ' x']) for _ in range(h)]
         tgt = [rng.choice([1, 2, 4, 8, 16, 0.5, 32, -3]) for _ in range(h)]
         values = {}
         for i in range(h):
@@ -172,7 +172,11 @@ def end_to_end(chk, tier):
             reqs.append('ci sumifs %s %d %s' % (core.enc([[v] for v in tgt]), len(pairs), ' '.join(enc_parts)))
             formulas.append('=COUNTIFS(%s)' % ','.join(parts))
             reqs.append('ci countifs %s %d %s' % (core.enc([[v] for v in tgt]), len(pairs), ' '.join(enc_parts)))
-        # misaligned ranges
+        # misaligned ranges: also behind a pair that selects nothing (every pair is checked, whatever the earlier ones select)
+        for fn_text, fn_name in (('=SUMIFS(D1:D%d,B1:B%d,"zzz",A1:A%d,">0")' % (h, h, h + 2), 'sumifs'), ('=COUNTIFS(B1:B%d,"zzz",A1:A%d,">0")' % (h, h + 2), 'countifs')):
+            formulas.append(fn_text)
+            reqs.append('ci %s %s 2 %s %s t == %s %s %s n > I0' % (fn_name, core.enc([[v] for v in tgt]), col_enc(keys2), core.enc('zzz'), core.enc('zzz'),
+                                                                    col_enc(keys1 + [None, None]), core.enc('>0')))
         formulas.append('=SUMIFS(D1:D%d,A1:A%d,">0")' % (h, h - 1))
         reqs.append('ci sumifs %s 1 %s %s n > I0' % (core.enc([[v] for v in tgt]), col_enc(keys1[:-1]), core.enc('>0')))
         formulas.append('=COUNTIFS(A1:A%d,">0",B1:B%d,"apple")' % (h, h - 1))
@@ -196,6 +200,24 @@ def end_to_end(chk, tier):
                     chk.violation({'why': 'AVERAGEIFS is not SUMIFS / COUNTIFS over the same selection', 'formula': laws[i], 'average': a, 'sum': s, 'count': c, 'stream': 'avg-law'})
             elif c == 'I0' and a not in (core.enc('#DIV/0!'), core.enc('#DIV0!')):
                 chk.violation({'why': 'AVERAGEIFS over an empty selection is not the division error value', 'formula': laws[i], 'average': a, 'stream': 'avg-law'})
+        # logical values next to the numbers 1 and 0: COUNTIFS keeps them apart (a numeric criterion does not accept TRUE, a logical one does not accept 1)
+        logic = [rng.choice([1, True, 1.0, 0, False, 2, 'x']) for _ in range(h)]
+        lvalues = dict(values)
+        for i, v in enumerate(logic):
+            lvalues[(11, i)] = v                     # column L
+        isnum = lambda v: type(v) in (int, float)
+        lforms = [('=COUNTIFS(%s,1)' % R('L'), sum(1 for v in logic if isnum(v) and v == 1)), ('=COUNTIFS(%s,0)' % R('L'), sum(1 for v in logic if isnum(v) and v == 0)),
+                  ('=COUNTIFS(%s,TRUE)' % R('L'), sum(1 for v in logic if v is True)), ('=COUNTIFS(%s,FALSE)' % R('L'), sum(1 for v in logic if v is False)),
+                  ('=COUNTIFS(%s,">0")' % R('L'), sum(1 for v in logic if isnum(v) and v > 0)), ('=COUNTIFS(%s,"<>1")' % R('L'), sum(1 for v in logic if not (isnum(v) and v == 1)))]
+        # the same as the second pair of the call (the first pair accepts every position)
+        lforms += [(f.replace('=COUNTIFS(', '=COUNTIFS(%s,"<>qq",' % R('D')), w) for f, w in lforms]
+        lo2 = realcode.eval_formulas([f for f, _ in lforms], lvalues)
+        for (f, want), got in zip(lforms, lo2):
+            chk.count('law:logical-vs-number')
+            chk.seen(('logic', b, f))
+            if got != 'I%d' % want:
+                chk.violation({'why': 'COUNTIFS does not keep logical values and the numbers 1 / 0 apart', 'formula': f, 'column': repr(logic), 'impl': got, 'want': want,
+                               'stream': 'logical-vs-number'})
         # date cells in the criteria range, the criterion assembled with & from a date cell (or the date cell itself)
         import datetime as _d
         days = [_d.datetime(2021, 2, 20) + _d.timedelta(days=rng.choice([0, 3, 3, 28, 125, 400])) for _ in range(h)]
